@@ -340,11 +340,12 @@ func (e *Exec) Run(i int, st Step, knownStaleStop bool) {
 		info := p.Info()
 		e.start("entries", st.P, i, func(o *Op) {
 			o.Ent = ent
-			o.Err = e.S.S.SyncEntries(ctx, info, ent[len(ent)-1], dagsync.ScopedBlockHook(func(_ peer.ID, c cid.Cid, _ dagsync.SegmentSyncActions) {
+			o.Err = e.S.S.SyncEntries(ctx, info, ent[len(ent)-1], dagsync.ScopedBlockHook(func(_ peer.ID, c cid.Cid, act dagsync.SegmentSyncActions) {
 				o.smu.Lock()
 				o.scoped = append(o.scoped, c)
 				o.smu.Unlock()
 				e.W.Bump()
+				act.SetNextSyncCid(e.S.NextOf(c)) // the segmented-sync contract (a no-op without segmentation)
 			}))
 		})
 	case "rmhandler":
